@@ -26,7 +26,7 @@ Next ==
   \/ \E r \in Replica : Fetch(r)
   \/ \E r \in Replica, b \in Bugs : Room(1) /\ Merge(r, b, a1, Rk)
   \/ WithRestart /\ \E r \in Replica, l \in (IF LoaderLess THEN BOOLEAN ELSE {TRUE}) : Reopen(r, l)
-  \/ WithRestart /\ \E r \in Replica : DeleteClocks(r)
+  \/ WithRestart /\ \E r \in Replica, w \in 0..2 : DeleteClocks(r, w)
 
 Spec == Init /\ [][Next]_vars
 
